@@ -331,7 +331,28 @@ COMMON_ASSUMPTIONS = [
 
 
 def load_prop(pid):
-    return importlib.import_module(f"props.{pid}")
+    """property module (drivers + metadata) merged with the E1/E2/E4 index (contracts/index.py)"""
+    mod = importlib.import_module(f"props.{pid}")
+    try:
+        index = importlib.import_module("contracts.index")
+    except ModuleNotFoundError:
+        return mod
+    extra = index.load(pid)
+    if extra:
+        for k in ("E1", "PROVIDERS", "TRUSTED", "ASSUMPTIONS"):
+            cur = list(getattr(mod, k, []))
+            for x in extra.get(k, []):
+                if x not in cur:
+                    cur.append(x)
+            setattr(mod, k, cur)
+        if extra.get("LEMMAS"):
+            mod.LEMMAS = True
+        bf = dict(getattr(mod, "BOUNDED_FOR", {}))
+        bf.update(extra.get("BOUNDED_FOR", {}))
+        mod.BOUNDED_FOR = bf
+        if extra.get("EXPLANATION"):
+            mod.EXPLANATION = extra["EXPLANATION"] + " || bounded part: " + getattr(mod, "EXPLANATION", "")
+    return mod
 
 
 def main(argv=None):
